@@ -25,6 +25,7 @@ import (
 	"context"
 	"fmt"
 	"net"
+	"os"
 	"strings"
 	"sync"
 
@@ -667,7 +668,13 @@ func c04ICMPSched(r *vmc.Result) {
 // to the fake socket and spawns the real waitForReply goroutine, a third controlled thread) and the
 // delivery of an ICMP_CLOSE for the session. Oracle: every ICMP_ECHO reply the exit wrote opens under the
 // key the exit agreed on, and no frame holds the marker.
+// c04WorldBroken is set when a controlled execution was aborted; the exploration that owns the world stops.
+var c04WorldBroken bool
+
 func c04ExitSchedExec(r *vmc.Result, nt *nsNet, cs c04ICMPCase, c *vmc.Chooser) {
+	if c04WorldBroken {
+		return
+	}
 	A, X := nt.agents[0], nt.agents[nt.n-1]
 	last := nt.n - 1
 	ctx := context.Background()
@@ -719,7 +726,11 @@ func c04ExitSchedExec(r *vmc.Result, nt *nsNet, cs c04ICMPCase, c *vmc.Chooser) 
 	cs.Choices = c.Choices()
 	r.Add("sched_points", int64(len(c.Trace)))
 	if out.Deadlock || out.Horizon || out.Panic != nil {
-		r.HarnessError("C04 exit schedule %+v: deadlock=%v horizon=%v panic=%v", cs, out.Deadlock, out.Horizon, out.Panic)
+		// an aborted execution may leave real locks held by threads that no longer exist: do not touch the world again
+		r.HarnessError("C04 exit schedule %+v: deadlock=%v horizon=%v panic=%v blocked=%v", cs, out.Deadlock, out.Horizon, out.Panic, out.Blocked)
+		c04WorldBroken = true
+		fmt.Fprintf(os.Stderr, "C04 exit schedule aborted: %+v deadlock=%v horizon=%v panic=%v blocked=%v\n%s\n", cs, out.Deadlock, out.Horizon, out.Panic, out.Blocked, out.PanicStack)
+		return
 	}
 	fail := func(clause, what string) {
 		r.Violate("C04/"+clause+"/icmp-exit-close-race", fmt.Sprintf("exit-side ICMP session, %d echo(es) in flight, close delivered concurrently, schedule %v: %s", cs.Echoes, cs.Choices, what), cs)
@@ -767,7 +778,11 @@ func c04ExitSched(r *vmc.Result) {
 		r.HarnessError("C04 exit schedule build: %v", err)
 		return
 	}
-	defer nt.close()
+	defer func() {
+		if !c04WorldBroken { // a broken world may hold real locks for ever: leak it
+			nt.close()
+		}
+	}()
 	bound := vmc.Pick(r, 2, 3)
 	for e := 1; e <= vmc.Pick(r, 1, 2); e++ {
 		cs := c04ICMPCase{ICMP: true, Sched: true, Transits: 1, Kind: "icmp-exit", Echoes: e}
